@@ -418,7 +418,7 @@ def run(ctx):
     if ok:
         cases, ncorp = gen_cases(ctx, ctx.tier)
         st = new_stats()
-        dis, pf, hooks, err = run_batch(ctx, exe, drv, cases, 600 if ctx.tier == 'quick' else 3000, st)
+        dis, pf, hooks, err = run_batch(ctx, exe, drv, cases, 240 if ctx.tier == 'quick' else 1800, st)
         ctx.log('correspondence: %d cases (%d corpus), %d agree, hook records %d, traces checked %d (%d events)' %
                 (st['cases'], ncorp, st['agree'], hooks, st['traces'], st['trace_events']))
         samples = [c for c in cases if c.split()[0] == 'p2d'][:3] + [c for c in cases if c.split()[0] == 'pe'][:2] + [c for c in cases if c.split()[0] == 'wq'][:2]
@@ -441,7 +441,8 @@ def run(ctx):
         for line, msg in pf[:1]:
             ctx.report('impl:' + key_of(msg), 'implementation violates a C33 predicate: ' + msg, {'failing_input': line, 'replay_cmd': "echo '%s' | %s" % (line, exe)})
         replay_single_processor(ctx, exe, drv)
-        if ctx.broken or ctx.tier == 'thorough':
+        # failing-input search: only needed when something broke and the main batch has not already produced a concrete input
+        if (ctx.broken and not any(v[2] for v in ctx.violations)) or ctx.tier == 'thorough':
             search(ctx, exe, drv, ctx.tier)
     ctx.assumptions += [
         'std::mutex / std::condition_variable are modelled as textbook monitor semantics with spurious wake-ups; the C++ memory model below that is not modelled',
